@@ -18,6 +18,29 @@ def boundary(bits, signed):
     return [0, 1, (1 << bits) - 1, 1 << (bits - 1), 0xA5 if bits == 8 else 0xBEEF if bits == 16 else 0xDEADBEEF if bits == 32 else 0x0123456789ABCDEF]
 
 
+def f32_bits_of_decimal(text):
+    """bits of the f32 nearest to the decimal literal (ONE rounding, ties to even) — python's own float() rounds to f64 first"""
+    from fractions import Fraction
+    x = Fraction(text)
+    guess = struct.unpack("<I", struct.pack("<f", float(x)))[0]
+    best = None
+    for b in (guess - 1, guess, guess + 1):
+        if b < 0 or (b & 0x7F800000) == 0x7F800000:
+            continue
+        v = Fraction(struct.unpack("<f", struct.pack("<I", b))[0])
+        key = (abs(v - x), b & 1)
+        if best is None or key < best[0]:
+            best = (key, b)
+    return best[1]
+
+
+# literals written in a data directive: ordinary ones, ones a hair away from the midpoint of two neighbouring f32 values (where rounding
+# through f64 first gives the other neighbour), subnormals and the extremes
+F32_LITERALS = ["1.5", "0.1", "-2.25", "3.14159265358979", "16777217.000000001", "16777216.999999999", "-16777217.000000001", "16777218.999999999",
+                "1.00000005960464477539062500001", "1.00000017881393432617187499999", "0.33333334", "1e-45", "3.4028235e38", "8388609.49999999999"]
+F64_LITERALS = ["1.5", "0.1", "-2.25", "1.7976931348623157e308", "5e-324", "2.2250738585072011e-308", "9007199254740993.0", "0.30000000000000004"]
+
+
 def le(v, bits):
     return (v & ((1 << bits) - 1)).to_bytes(bits // 8, "little")
 
@@ -42,6 +65,15 @@ def sweep(run, thorough):
                 expect.append(("seq", [d, d, d]))
         cases.append(dict(body=f"; .arch {arch} ; .f32 a0 ; .f64 a1 ; .f32 a0", vars=[("a0", "f32"), ("a1", "f64")]))
         expect.append(("float", None))
+        if arch in ("x64", "aarch64"):
+            for lit in F32_LITERALS:
+                cases.append(dict(body=f"; .arch {arch} ; .f32 {lit} ; .u8 0xEE", vars=[]))
+                expect.append(("float-literal", le(f32_bits_of_decimal(lit), 32) + b"\xee"))
+            for lit in F64_LITERALS:
+                cases.append(dict(body=f"; .arch {arch} ; .f64 {lit} ; .u8 0xEE", vars=[]))
+                expect.append(("float-literal", struct.pack("<d", float(lit)) + b"\xee"))
+            cases.append(dict(body=f"; .arch {arch} ; .f32 {', '.join(F32_LITERALS[:5])} ; .f64 {', '.join(F64_LITERALS[:3])}", vars=[]))
+            expect.append(("float-literal", b"".join(le(f32_bits_of_decimal(l), 32) for l in F32_LITERALS[:5]) + b"".join(struct.pack("<d", float(l)) for l in F64_LITERALS[:3])))
         # .align: `pre` filler-independent bytes first, then the alignment (default and explicit filler)
         for pre in (0, 1, 3, 7, 8, 15, 17):
             for al in (1, 2, 3, 4, 8, 16, 24, 64):
@@ -67,6 +99,9 @@ def sweep(run, thorough):
                 vals = [max(-(1 << (d[2] - 1)), min(v, (1 << (d[2] - 1)) - 1)) if d[3] else v for v, d in zip(vals, info)]
                 reqs.append((i, vals))
                 meta.append(b"".join(le(v, d[2]) for v, d in zip(vals, info)))
+        elif kind == "float-literal":
+            reqs.append((i, []))
+            meta.append(info)
         elif kind == "float":
             for (f, g) in ((1.5, -2.25), (0.0, 1e300), (-0.0, 3.14159)):
                 fb = struct.unpack("<I", struct.pack("<f", f))[0]
